@@ -102,9 +102,12 @@ Listing(cfg, store) == store
 
 Ev(name, d) == [ev |-> name, d |-> d]
 
-StoreEv(call, idsGiven, ids, rp, cred, ok, err, found, snap, faulted) ==
+NoOpts == [rk |-> FALSE, up |-> FALSE, uv |-> FALSE]
+StoreEvO(call, idsGiven, ids, rp, cred, ok, err, found, snap, faulted, opts) ==
     Ev("Store", [call |-> call, idsGiven |-> idsGiven, ids |-> ids, rp |-> rp, cred |-> cred, ok |-> ok,
-                 err |-> err, found |-> found, snap |-> snap, faulted |-> faulted])
+                 err |-> err, found |-> found, snap |-> snap, faulted |-> faulted, opts |-> opts])
+StoreEv(call, idsGiven, ids, rp, cred, ok, err, found, snap, faulted) ==
+    StoreEvO(call, idsGiven, ids, rp, cred, ok, err, found, snap, faulted, NoOpts)
 
 PromptEv(shown, up, uv, ans) ==
     Ev("Prompt", [shown |-> shown, up |-> up, uv |-> uv, ok |-> ans.kind = "ok",
@@ -117,7 +120,7 @@ Es256Cose == [labels |-> <<-3, -2, -1, 1, 3>>, kty |-> 2, alg |-> -7, crv |-> 1,
 
 \* the part of an End event layer B predicts (the harness adds observation-only fields)
 EndErr(code) ==
-    [ok |-> FALSE, err |-> code, flags |-> <<>>, ctr |-> NoCtr, cred |-> "none", user |-> "none",
+    [ok |-> FALSE, err |-> code, werr |-> "none", flags |-> <<>>, ctr |-> NoCtr, cred |-> "none", user |-> "none",
      rphash |-> "none", sigkey |-> "none", at |-> FALSE, ed |-> FALSE, idlen |-> 0,
      cose |-> NoCose, stored |-> NoCred, prfEnabled |-> "absent", prf1 |-> NoPrf, prf2 |-> NoPrf,
      \* observation-only fields: what the relying-party role reports about the bytes
@@ -240,8 +243,10 @@ WriteStep(cfg, cer, store, nnew, pc2, call, c) ==
     LET f == Fault(cer)
         store2 == IF f # 0 THEN store ELSE Save(cfg, store, c)
         cer2 == [cer EXCEPT !.nfall = cer.nfall + 1, !.serr = f]
+        \* save_credential is handed the request's options
+        opts == IF call = "save" THEN [rk |-> cer.req.rk, up |-> cer.req.up, uv |-> cer.req.uv] ELSE NoOpts
     IN Gated(cfg, cer, store, nnew, pc2, cer2, store2,
-             StoreEv(call, FALSE, <<>>, c.rp, c, f = 0, f, <<>>, Listing(cfg, store2), f # 0))
+             StoreEvO(call, FALSE, <<>>, c.rp, c, f = 0, f, <<>>, Listing(cfg, store2), f # 0, opts))
 
 -----------------------------------------------------------------------------
 (* authenticatorMakeCredential                                              *)
